@@ -32,6 +32,9 @@ CODES = {
     111: 'InsertPoints: refused != (total + n > MaxCollectionPointCount)',
     112: 'InsertPoints: refused by quota but the collection total changed',
     113: 'InsertPoints: accepted but new total != old total + n - points of failed ranges',
+    114: 'InsertPoints of one point whose id is already stored in the target shard: the range is not reported failed',
+    115: 'InsertPoints of one point whose id is already stored in the target shard: the collection total moved',
+    116: 'the total reported by the shards differs from the number of sent points that can be found',
     121: 'CreateCollection: answer differs from (exists -> AlreadyExists; else count >= MaxCollections -> QuotaReached; else created)',
     122: 'CreateCollection: number of collections after the request is wrong (refusal with side effect, or creation not visible)',
     131: 'a shard holds more points than MaxShardPointCount after an insert',
